@@ -71,7 +71,7 @@ func (cx *Ctx) effectErrorsPropagated(r *Report, mods []string, rule string) int
 					continue
 				}
 				n++
-				if errorPropagated(c) {
+				if errorPropagated(c) || failureOnlyCleanup(c) {
 					continue
 				}
 				key := moduleOf(funcPkgPath(f)) + "|" + shortFn(f) + "|" + name
